@@ -24,7 +24,11 @@ use std::mem::MaybeUninit;
 use std::ptr;
 use std::ptr::NonNull;
 use std::sync::atomic;
+#[cfg(not(starlark_verif))]
 use std::sync::atomic::AtomicU32;
+
+#[cfg(starlark_verif)]
+use crate::verif::sync::AtomicU32;
 
 use dupe::Dupe;
 
@@ -80,6 +84,8 @@ impl ChunkData {
 
         let layout = Self::layout_for_len(len);
         let ptr = unsafe { alloc::alloc(layout) };
+        #[cfg(starlark_verif)]
+        crate::verif::sync::point("Chunk", ptr as usize, "alloc");
         let ptr = ptr as *mut ChunkData;
         let ptr = match NonNull::new(ptr) {
             None => alloc::handle_alloc_error(layout),
@@ -228,6 +234,12 @@ impl Drop for Chunk {
         unsafe {
             if self.data().ref_count.fetch_sub(1, atomic::Ordering::SeqCst) == 1 {
                 let layout = ChunkData::layout_for_len(self.data().len);
+                #[cfg(starlark_verif)]
+                {
+                    crate::verif::sync::point("Chunk", self.ptr.as_ptr() as usize, "dealloc");
+                    // make any later read through a dangling reference a wrong read
+                    ptr::write_bytes(self.ptr.as_ptr() as *mut u8, 0xDD, layout.size());
+                }
                 alloc::dealloc(self.ptr.as_ptr() as *mut u8, layout);
             }
         }
